@@ -21,5 +21,9 @@ int main(int argc, char** argv) {
       printf("REPRODUCED: type_instance(%s, %s) = %p, declared %p\n", c_str(types[i]), c_str(classes[j]), got, want); bad = 1;
     }
   }
+  { var other = new(Type, $S("Int"), $I(8)); int raised = 0;      /* a different type object that shares its name with Int */
+    try { cast($I(1), other); } catch (e in ValueError) { raised = 1; }
+    if (!raised) { printf("REPRODUCED: cast of an Int to a different type named \"Int\" was accepted\n"); bad = 1; }
+    if (cast($I(1), Int) == NULL) bad = 1; }
   return bad;
 }
